@@ -1,6 +1,1558 @@
-//! Property C10: correspondence and oracle (stub: nothing built yet).
-use crate::report::Report;
+//! Property C10: incremental reprocessing (`WorkerTree` driven as `--watch` drives it) equals
+//! processing from scratch.
+//!
+//! Real side: `darklua_core::{WorkerTree, Resources::from_memory, process, Options, Configuration}`.
+//! A history is a list of watcher-level operations (what `cli/utils/file_watcher.rs:
+//! process_events` turns file-system events into):
+//!   edit p v   = write p; `source_changed(p)`          (Modify(Data) event; p a source or a dependency)
+//!   add p v    = write p; has_created = true            (Create event)
+//!   rm p       = delete p; `remove_source(p)`           (Remove(File))
+//!   rmdir d    = delete everything under d; `remove_source(d)`   (Remove(Folder))
+//!   cfg k      = the configuration used by the following passes
+//!   collect    = `collect_work` (what an `Any` event forces)
+//!   process    = if has_created { `collect_work` }; `WorkerTree::process`   (end of a debounced batch)
+//! Every history starts with `darklua_core::process` (as `FileWatcher::start` does) and ends with
+//! a `process`.
+//!
+//! (a) correspondence: after every `process` the output tree, success/error counts and the
+//!     set of watched external dependencies equal the Lean model's (`c10.run`), where the model's
+//!     per-file transformation `T` is a table measured from real single-file fresh darklua runs.
+//! (b) oracle (model-free): the output tree equals a real fresh run over the final inputs
+//!     (new `Resources`, `darklua_core::process`), foreign files kept, no panic, no hang.
+use crate::model::Model;
+use crate::report::{known_findings, Report, Violation};
+use crate::rng::Rng;
+use darklua_core::{Configuration, Options, Resources, WorkerTree};
+use serde_json::{json, Value};
+use std::collections::{BTreeMap, BTreeSet, HashMap};
+use std::panic::{catch_unwind, AssertUnwindSafe};
+use std::sync::atomic::{AtomicBool, AtomicU64, Ordering};
+use std::sync::{mpsc, Arc, Mutex, OnceLock};
+use std::time::{Duration, Instant};
 
-pub fn run(report: &mut Report, _replay: Option<&str>) {
-    report.notes.push("C10: no harness yet".to_owned());
+// ---------------------------------------------------------------------------------------
+// the fixed project
+
+const INPUT: &str = "src";
+const OUTPUT: &str = "out";
+
+/// (path, content variants, initially present)
+const FILES: &[(&str, &[&str], bool)] = &[
+    ("src/a.lua", &["local x = 1 + 1\nreturn x -- a0\n", "return 'a1'\n", "local = 1\n"], true),
+    ("src/b.lua", &["return 'b0'\n", "return require(\"./bundle/data.json\").v\n"], true),
+    ("src/sub/c.lua", &["local function f() return 2 * 3 end\nreturn f()\n", "return 'c1'\n"], true),
+    (
+        "src/bundle/entry.lua",
+        &[
+            "local m1 = require(\"./m1\")\nlocal d = require(\"./data.json\")\nreturn m1.x + d.v\n",
+            "local m1 = require(\"./m1\")\nreturn m1.x\n",
+        ],
+        true,
+    ),
+    (
+        "src/bundle/m1.lua",
+        &["local m2 = require(\"../../lib/m2\")\nreturn { x = m2 }\n", "return { x = 5 }\n"],
+        true,
+    ),
+    ("src/bundle/data.json", &["{\"v\": 1}", "{\"v\": 2}"], true),
+    ("lib/m2.lua", &["return 1\n", "return 2\n"], true),
+    ("src/new.lua", &["return 'new0'\n", "return require(\"./late\")\n"], false),
+    ("src/late.lua", &["return 'late0'\n", "return 'late1'\n"], false),
+];
+const F_A: usize = 0;
+const F_B: usize = 1;
+const F_C: usize = 2;
+const F_ENTRY: usize = 3;
+const F_M1: usize = 4;
+const F_DATA: usize = 5;
+const F_M2: usize = 6;
+const F_NEW: usize = 7;
+const F_LATE: usize = 8;
+
+/// files that exist in the output folder before the first run and belong to no source
+const FOREIGN: &[(&str, &str)] = &[("out/foreign.txt", "keep me"), ("out/sub/readme.md", "keep me too")];
+
+const DIRS: &[&str] = &["src/bundle", "src/sub"];
+
+/// configurations (json5). 0/1 differ in the generator, 0/2 only in a rule filter (invisible
+/// to the configuration hash: F13), 0/3 in the rule list.
+const CONFIGS: &[&str] = &[
+    "{ rules: ['remove_comments', 'compute_expression'], bundle: { require_mode: 'path' } }",
+    "{ rules: ['remove_comments', 'compute_expression'], bundle: { require_mode: 'path' }, generator: 'dense' }",
+    "{ rules: ['remove_comments', { rule: 'compute_expression', skip_files: ['**/a.lua'] }], bundle: { require_mode: 'path' } }",
+    "{ rules: ['remove_comments'], bundle: { require_mode: 'path' } }",
+];
+
+fn config(k: usize) -> Configuration {
+    json5::from_str(CONFIGS[k]).expect("configuration text is valid")
+}
+
+fn config_hash_text(k: usize) -> Vec<u8> {
+    // what `WorkerTree::has_configuration_changed` hashes
+    serde_json::to_vec(&config(k)).unwrap_or_default()
+}
+
+fn options(k: usize) -> Options {
+    Options::new(INPUT).with_output(OUTPUT).with_configuration(config(k))
+}
+
+fn is_source(path: &str) -> bool {
+    path.starts_with("src/") && (path.ends_with(".lua") || path.ends_with(".luau"))
+}
+
+fn out_path(path: &str) -> String {
+    format!("{}/{}", OUTPUT, &path[INPUT.len() + 1..])
+}
+
+// ---------------------------------------------------------------------------------------
+// operations
+
+#[derive(Clone, Copy, Debug, PartialEq, Eq, Hash, PartialOrd, Ord)]
+pub enum Op {
+    Edit(usize, usize),
+    Add(usize, usize),
+    Rm(usize),
+    RmDir(usize),
+    Cfg(usize),
+    Collect,
+    Process,
+}
+
+impl Op {
+    fn text(&self) -> String {
+        match *self {
+            Op::Edit(f, v) => format!("edit {} {}", FILES[f].0, v),
+            Op::Add(f, v) => format!("add {} {}", FILES[f].0, v),
+            Op::Rm(f) => format!("rm {}", FILES[f].0),
+            Op::RmDir(d) => format!("rmdir {}", DIRS[d]),
+            Op::Cfg(k) => format!("cfg {}", k),
+            Op::Collect => "collect".to_owned(),
+            Op::Process => "process".to_owned(),
+        }
+    }
+    fn parse(s: &str) -> Option<Op> {
+        let parts: Vec<&str> = s.split_whitespace().collect();
+        let file = |p: &str| FILES.iter().position(|f| f.0 == p);
+        match parts.as_slice() {
+            ["edit", p, v] => Some(Op::Edit(file(p)?, v.parse().ok()?)),
+            ["add", p, v] => Some(Op::Add(file(p)?, v.parse().ok()?)),
+            ["rm", p] => Some(Op::Rm(file(p)?)),
+            ["rmdir", d] => Some(Op::RmDir(DIRS.iter().position(|x| x == d)?)),
+            ["cfg", k] => Some(Op::Cfg(k.parse().ok().filter(|k| *k < CONFIGS.len())?)),
+            ["collect"] => Some(Op::Collect),
+            ["process"] => Some(Op::Process),
+            _ => None,
+        }
+    }
+    fn kind(&self) -> &'static str {
+        match self {
+            Op::Edit(f, _) => {
+                if is_source(FILES[*f].0) {
+                    "edit"
+                } else {
+                    "editDep"
+                }
+            }
+            Op::Add(..) => "add",
+            Op::Rm(_) => "removeFile",
+            Op::RmDir(_) => "removeDir",
+            Op::Cfg(_) => "setConfig",
+            Op::Collect => "collectWork",
+            Op::Process => "process",
+        }
+    }
+}
+
+fn history_json(h: &[Op]) -> Value {
+    Value::Array(h.iter().map(|o| Value::String(o.text())).collect())
+}
+
+fn history_from_json(v: &Value) -> Option<Vec<Op>> {
+    v.as_array()?.iter().map(|x| x.as_str().and_then(Op::parse)).collect()
+}
+
+/// the input side of the file system: variant index per file (None = absent)
+type FsState = Vec<Option<usize>>;
+
+fn initial_state() -> FsState {
+    FILES.iter().map(|f| if f.2 { Some(0) } else { None }).collect()
+}
+
+/// Is `op` meaningful in `state` (edit/remove of an existing file, add of a missing one)?
+fn op_valid(state: &FsState, op: Op) -> bool {
+    match op {
+        Op::Edit(f, v) => state[f].is_some() && v < FILES[f].1.len(),
+        Op::Add(f, v) => state[f].is_none() && v < FILES[f].1.len(),
+        Op::Rm(f) => state[f].is_some(),
+        Op::RmDir(d) => (0..FILES.len()).any(|f| state[f].is_some() && FILES[f].0.starts_with(&format!("{}/", DIRS[d]))),
+        Op::Cfg(_) | Op::Collect | Op::Process => true,
+    }
+}
+
+fn apply_to_state(state: &mut FsState, op: Op) {
+    match op {
+        Op::Edit(f, v) | Op::Add(f, v) => state[f] = Some(v),
+        Op::Rm(f) => state[f] = None,
+        Op::RmDir(d) => {
+            for f in 0..FILES.len() {
+                if FILES[f].0.starts_with(&format!("{}/", DIRS[d])) {
+                    state[f] = None;
+                }
+            }
+        }
+        _ => {}
+    }
+}
+
+/// drop the operations that are not valid where they stand; always end with `process`
+fn canonical(h: &[Op]) -> Vec<Op> {
+    let mut state = initial_state();
+    let mut out = Vec::new();
+    for &op in h {
+        if op_valid(&state, op) {
+            apply_to_state(&mut state, op);
+            out.push(op);
+        }
+    }
+    if out.last() != Some(&Op::Process) {
+        out.push(Op::Process);
+    }
+    out
+}
+
+// ---------------------------------------------------------------------------------------
+// the real worker
+
+/// what is observed after a `process`
+#[derive(Clone, Debug, PartialEq, Eq)]
+pub struct Obs {
+    tree: BTreeMap<String, String>,
+    success: usize,
+    errors: usize,
+    ext: BTreeSet<String>,
+}
+
+#[derive(Clone, Debug, PartialEq, Eq)]
+pub enum Step {
+    Obs(Obs),
+    Panic(String),
+}
+
+fn out_tree(res: &Resources) -> BTreeMap<String, String> {
+    res.walk(OUTPUT)
+        .map(|p| {
+            let content = res.get(&p).unwrap_or_default();
+            (p.to_string_lossy().replace('\\', "/"), content)
+        })
+        .collect()
+}
+
+fn input_tree(res: &Resources) -> BTreeMap<String, String> {
+    let mut t = BTreeMap::new();
+    for dir in ["src", "lib"] {
+        for p in res.walk(dir) {
+            let content = res.get(&p).unwrap_or_default();
+            t.insert(p.to_string_lossy().replace('\\', "/"), content);
+        }
+    }
+    t
+}
+
+fn populate(res: &Resources, state: &FsState, with_foreign: bool) {
+    for (f, v) in state.iter().enumerate() {
+        if let Some(v) = v {
+            res.write(FILES[f].0, FILES[f].1[*v]).unwrap();
+        }
+    }
+    if with_foreign {
+        for (p, c) in FOREIGN {
+            res.write(p, c).unwrap();
+        }
+    }
+}
+
+struct Real {
+    res: Resources,
+    tree: Option<WorkerTree>,
+    cfg: usize,
+    has_created: bool,
+    state: FsState,
+}
+
+impl Real {
+    fn start() -> Real {
+        let res = Resources::from_memory();
+        let state = initial_state();
+        populate(&res, &state, true);
+        // FileWatcher::start -> run_worker_tree -> darklua_core::process
+        let tree = darklua_core::process(&res, options(0)).ok();
+        Real { res, tree, cfg: 0, has_created: false, state }
+    }
+
+    fn observe(&self) -> Obs {
+        let tree = self.tree.as_ref().unwrap();
+        Obs {
+            tree: out_tree(&self.res),
+            success: tree.success_count(),
+            errors: tree.collect_errors().len(),
+            ext: tree
+                .iter_external_dependencies()
+                .map(|p| p.to_string_lossy().replace('\\', "/"))
+                .collect(),
+        }
+    }
+
+    /// one operation; Some(observation) after a `process`
+    fn apply(&mut self, op: Op) -> Option<Obs> {
+        let tree = self.tree.as_mut().expect("initial run succeeded");
+        match op {
+            Op::Edit(f, v) => {
+                self.res.write(FILES[f].0, FILES[f].1[v]).unwrap();
+                tree.source_changed(FILES[f].0);
+            }
+            Op::Add(f, v) => {
+                self.res.write(FILES[f].0, FILES[f].1[v]).unwrap();
+                self.has_created = true;
+            }
+            Op::Rm(f) => {
+                self.res.remove(FILES[f].0).unwrap();
+                tree.remove_source(FILES[f].0);
+            }
+            Op::RmDir(d) => {
+                for f in 0..FILES.len() {
+                    if self.state[f].is_some() && FILES[f].0.starts_with(&format!("{}/", DIRS[d])) {
+                        self.res.remove(FILES[f].0).unwrap();
+                    }
+                }
+                tree.remove_source(DIRS[d]);
+            }
+            Op::Cfg(k) => self.cfg = k,
+            Op::Collect => {
+                let _ = tree.collect_work(&self.res, &options(self.cfg));
+            }
+            Op::Process => {
+                if self.has_created {
+                    let _ = tree.collect_work(&self.res, &options(self.cfg));
+                    self.has_created = false;
+                }
+                let _ = tree.process(&self.res, options(self.cfg));
+                apply_to_state(&mut self.state, op);
+                return Some(self.observe());
+            }
+        }
+        apply_to_state(&mut self.state, op);
+        None
+    }
+}
+
+/// Run a history on the real worker: one `Step` per `process`, stopping at the first panic.
+fn run_real(h: &[Op]) -> (Vec<Step>, FsState, usize, BTreeMap<String, String>) {
+    let mut real = match catch_unwind(Real::start) {
+        Ok(r) => r,
+        Err(e) => return (vec![Step::Panic(panic_text(e))], initial_state(), 0, BTreeMap::new()),
+    };
+    let mut steps = Vec::new();
+    for &op in h {
+        let r = catch_unwind(AssertUnwindSafe(|| real.apply(op)));
+        match r {
+            Ok(Some(obs)) => steps.push(Step::Obs(obs)),
+            Ok(None) => {}
+            Err(e) => {
+                steps.push(Step::Panic(format!("{} at `{}`", panic_text(e), op.text())));
+                break;
+            }
+        }
+    }
+    let inputs = catch_unwind(AssertUnwindSafe(|| input_tree(&real.res))).unwrap_or_default();
+    (steps, real.state.clone(), real.cfg, inputs)
+}
+
+fn panic_text(e: Box<dyn std::any::Any + Send>) -> String {
+    if let Some(s) = e.downcast_ref::<&str>() {
+        (*s).to_owned()
+    } else if let Some(s) = e.downcast_ref::<String>() {
+        s.clone()
+    } else {
+        "panic".to_owned()
+    }
+}
+
+// ---------------------------------------------------------------------------------------
+// reference artefacts measured on the real code: fresh runs and the single-file table T
+
+type Tree = BTreeMap<String, String>;
+
+fn fresh_cache() -> &'static Mutex<HashMap<(usize, FsState), Arc<Result<Tree, String>>>> {
+    static C: OnceLock<Mutex<HashMap<(usize, FsState), Arc<Result<Tree, String>>>>> = OnceLock::new();
+    C.get_or_init(Default::default)
+}
+
+/// ORACLE: a real fresh run (new resources with the final inputs and the foreign files, new worker)
+fn fresh(cfg: usize, state: &FsState) -> Arc<Result<Tree, String>> {
+    if let Some(t) = fresh_cache().lock().unwrap().get(&(cfg, state.clone())) {
+        return t.clone();
+    }
+    let r = catch_unwind(|| {
+        let res = Resources::from_memory();
+        populate(&res, state, true);
+        let _ = darklua_core::process(&res, options(cfg));
+        out_tree(&res)
+    })
+    .map_err(panic_text);
+    let r = Arc::new(r);
+    fresh_cache().lock().unwrap().insert((cfg, state.clone()), r.clone());
+    r
+}
+
+#[derive(Clone, Debug, PartialEq, Eq)]
+struct TRes {
+    out: Option<String>,
+    deps: Vec<String>,
+}
+
+fn t_cache() -> &'static Mutex<HashMap<(usize, FsState, usize), Arc<TRes>>> {
+    static C: OnceLock<Mutex<HashMap<(usize, FsState, usize), Arc<TRes>>>> = OnceLock::new();
+    C.get_or_init(Default::default)
+}
+
+/// T cfg fs p, measured: darklua on the single file p in fresh resources holding the inputs `state`.
+fn measure_t(cfg: usize, state: &FsState, f: usize) -> Arc<TRes> {
+    let key = (cfg, state.clone(), f);
+    if let Some(t) = t_cache().lock().unwrap().get(&key) {
+        return t.clone();
+    }
+    let path = FILES[f].0;
+    let out = out_path(path);
+    let r = catch_unwind(|| {
+        let res = Resources::from_memory();
+        populate(&res, state, false);
+        let opts = Options::new(path).with_output(&out).with_configuration(config(cfg));
+        let deps: Vec<String> = match darklua_core::process(&res, opts) {
+            Ok(tree) => {
+                let mut d: Vec<String> = tree
+                    .iter_external_dependencies()
+                    .map(|p| p.to_string_lossy().replace('\\', "/"))
+                    .collect();
+                d.sort();
+                d
+            }
+            Err(_) => Vec::new(),
+        };
+        TRes { out: res.get(&out).ok(), deps }
+    })
+    .unwrap_or(TRes { out: None, deps: Vec::new() });
+    let r = Arc::new(r);
+    t_cache().lock().unwrap().insert(key, r.clone());
+    r
+}
+
+// ---------------------------------------------------------------------------------------
+// the Lean model side (`c10.run`)
+
+struct Interner {
+    ids: HashMap<String, usize>,
+    names: Vec<String>,
+}
+
+impl Interner {
+    fn new() -> Self {
+        Interner { ids: HashMap::new(), names: Vec::new() }
+    }
+    fn id(&mut self, s: &str) -> usize {
+        if let Some(i) = self.ids.get(s) {
+            return *i;
+        }
+        let i = self.names.len();
+        self.ids.insert(s.to_owned(), i);
+        self.names.push(s.to_owned());
+        i
+    }
+}
+
+struct Codec {
+    comps: Interner,
+    contents: Interner,
+    hashes: Interner,
+}
+
+impl Codec {
+    fn new() -> Self {
+        Codec { comps: Interner::new(), contents: Interner::new(), hashes: Interner::new() }
+    }
+    fn path(&mut self, p: &str) -> String {
+        let ids: Vec<String> = p.split('/').map(|c| self.comps.id(c).to_string()).collect();
+        format!("(p {})", ids.join(" "))
+    }
+    fn unpath(&self, s: &Sx) -> Option<String> {
+        let items = s.list()?;
+        if items.first()?.atom()? != "p" {
+            return None;
+        }
+        let comps: Option<Vec<String>> = items[1..]
+            .iter()
+            .map(|c| c.atom()?.parse::<usize>().ok().and_then(|i| self.comps.names.get(i).cloned()))
+            .collect();
+        Some(comps?.join("/"))
+    }
+}
+
+/// minimal S-expression reader for the model's answers
+#[derive(Clone, Debug)]
+enum Sx {
+    Atom(String),
+    List(Vec<Sx>),
+}
+
+impl Sx {
+    fn atom(&self) -> Option<&str> {
+        match self {
+            Sx::Atom(s) => Some(s),
+            _ => None,
+        }
+    }
+    fn list(&self) -> Option<&[Sx]> {
+        match self {
+            Sx::List(v) => Some(v),
+            _ => None,
+        }
+    }
+    fn tagged(&self, tag: &str) -> Option<&[Sx]> {
+        let l = self.list()?;
+        if l.first()?.atom()? == tag {
+            Some(&l[1..])
+        } else {
+            None
+        }
+    }
+    fn parse(s: &str) -> Option<Sx> {
+        let mut stack: Vec<Vec<Sx>> = vec![Vec::new()];
+        let mut tok = String::new();
+        let flush = |tok: &mut String, stack: &mut Vec<Vec<Sx>>| {
+            if !tok.is_empty() {
+                stack.last_mut().unwrap().push(Sx::Atom(std::mem::take(tok)));
+            }
+        };
+        for c in s.chars() {
+            match c {
+                '(' => {
+                    flush(&mut tok, &mut stack);
+                    stack.push(Vec::new());
+                }
+                ')' => {
+                    flush(&mut tok, &mut stack);
+                    let top = stack.pop()?;
+                    stack.last_mut()?.push(Sx::List(top));
+                }
+                c if c.is_whitespace() => flush(&mut tok, &mut stack),
+                c => tok.push(c),
+            }
+        }
+        flush(&mut tok, &mut stack);
+        if stack.len() != 1 || stack[0].len() != 1 {
+            return None;
+        }
+        stack.pop()?.pop()
+    }
+}
+
+/// The model's verdict on a history
+#[derive(Clone, Debug)]
+struct ModelRun {
+    steps: Vec<Step>,
+    /// None = inside the proved region H10; Some(region) = first excluded region met
+    region: Option<String>,
+    /// index of the operation that entered it
+    region_at: Option<usize>,
+    /// every excluded region met, in order
+    hits: Vec<String>,
+    /// the model's own final state equals the model-level `freshOut` spec
+    fresh_same: Option<bool>,
+    raw: String,
+}
+
+/// Build the `c10.run` request: the project, the measured T table for every (configuration,
+/// input state, source) the history can meet at a `process`, the measured configuration hashes.
+fn model_request(h: &[Op]) -> (String, Codec) {
+    let mut cx = Codec::new();
+    let mut s = String::from("c10.run (req");
+    s.push_str(&format!(" (in {})", cx.path(INPUT)));
+    s.push_str(&format!(" (out {})", cx.path(OUTPUT)));
+    // every path of the universe, so that component ids are fixed
+    let univ: Vec<String> = FILES.iter().map(|f| cx.path(f.0)).collect();
+    let lua: Vec<String> = cx
+        .comps
+        .names
+        .iter()
+        .enumerate()
+        .filter(|(_, n)| n.ends_with(".lua") || n.ends_with(".luau"))
+        .map(|(i, _)| i.to_string())
+        .collect();
+    s.push_str(&format!(" (lua {})", lua.join(" ")));
+    s.push_str(&format!(" (univ {})", univ.join(" ")));
+    // initial file system: inputs + foreign files
+    let mut init = Vec::new();
+    for f in FILES.iter().filter(|f| f.2) {
+        let p = cx.path(f.0);
+        init.push(format!("(f {} {})", p, cx.contents.id(f.1[0])));
+    }
+    for (p, c) in FOREIGN {
+        let p = cx.path(p);
+        init.push(format!("(f {} {})", p, cx.contents.id(c)));
+    }
+    s.push_str(&format!(" (init {})", init.join(" ")));
+    let hashes: Vec<String> = (0..CONFIGS.len())
+        .map(|k| {
+            let text = String::from_utf8_lossy(&config_hash_text(k)).into_owned();
+            format!("(h {} {})", k, cx.hashes.id(&text))
+        })
+        .collect();
+    s.push_str(&format!(" (hashes {})", hashes.join(" ")));
+    // T table: at each `process` (and the initial run) for the current configuration and inputs
+    let mut table: BTreeMap<(usize, FsState, usize), Arc<TRes>> = BTreeMap::new();
+    // every (configuration of the history, input state after each operation, present source):
+    // the model evaluates T at `process` and inside the H10 monitor (`staleAfter`)
+    let mut cfgs: BTreeSet<usize> = BTreeSet::new();
+    cfgs.insert(0);
+    for op in h {
+        if let Op::Cfg(k) = op {
+            cfgs.insert(*k);
+        }
+    }
+    let mut state = initial_state();
+    let note = |state: &FsState, table: &mut BTreeMap<(usize, FsState, usize), Arc<TRes>>| {
+        for &cfg in cfgs.iter() {
+            for f in 0..FILES.len() {
+                if state[f].is_some() && is_source(FILES[f].0) {
+                    table.entry((cfg, state.clone(), f)).or_insert_with(|| measure_t(cfg, state, f));
+                }
+            }
+        }
+    };
+    note(&state, &mut table);
+    for &op in h {
+        apply_to_state(&mut state, op);
+        note(&state, &mut table);
+    }
+    let mut entries = Vec::new();
+    for ((k, st, f), t) in table.iter() {
+        let fs: Vec<String> = st
+            .iter()
+            .enumerate()
+            .map(|(g, v)| match v {
+                Some(v) => cx.contents.id(FILES[g].1[*v]).to_string(),
+                None => "n".to_owned(),
+            })
+            .collect();
+        let out = match &t.out {
+            Some(c) => format!("(ok {})", cx.contents.id(c)),
+            None => "err".to_owned(),
+        };
+        let deps: Vec<String> = t.deps.iter().map(|d| cx.path(d)).collect();
+        entries.push(format!("(e {} (fs {}) {} {} (deps {}))", k, fs.join(" "), cx.path(FILES[*f].0), out, deps.join(" ")));
+    }
+    s.push_str(&format!(" (T {})", entries.join(" ")));
+    let ops: Vec<String> = h
+        .iter()
+        .map(|op| match *op {
+            Op::Edit(f, v) => format!("(edit {} {})", cx.path(FILES[f].0), cx.contents.id(FILES[f].1[v])),
+            Op::Add(f, v) => format!("(add {} {})", cx.path(FILES[f].0), cx.contents.id(FILES[f].1[v])),
+            Op::Rm(f) => format!("(rm {})", cx.path(FILES[f].0)),
+            Op::RmDir(d) => format!("(rmdir {})", cx.path(DIRS[d])),
+            Op::Cfg(k) => format!("(cfg {})", k),
+            Op::Collect => "collect".to_owned(),
+            Op::Process => "process".to_owned(),
+        })
+        .collect();
+    s.push_str(&format!(" (hist {})", ops.join(" ")));
+    s.push(')');
+    (s, cx)
+}
+
+fn decode_model(answer: &str, cx: &Codec) -> Option<ModelRun> {
+    let sx = Sx::parse(answer)?;
+    let items = sx.tagged("run")?;
+    let mut steps = Vec::new();
+    let mut region = None;
+    let mut region_at = None;
+    let mut hits = Vec::new();
+    let mut fresh_same = None;
+    for it in items {
+        if let Some(rest) = it.tagged("steps") {
+            for st in rest {
+                if st.atom() == Some("panic") {
+                    steps.push(Step::Panic("model".to_owned()));
+                } else {
+                    let parts = st.tagged("ok")?;
+                    let mut obs = Obs { tree: BTreeMap::new(), success: 0, errors: 0, ext: BTreeSet::new() };
+                    for part in parts {
+                        if let Some(files) = part.tagged("tree") {
+                            for f in files {
+                                let f = f.tagged("f")?;
+                                let p = cx.unpath(&f[0])?;
+                                let c = f[1].atom()?.parse::<usize>().ok()?;
+                                obs.tree.insert(p, cx.contents.names.get(c)?.clone());
+                            }
+                        } else if let Some(n) = part.tagged("succ") {
+                            obs.success = n[0].atom()?.parse().ok()?;
+                        } else if let Some(n) = part.tagged("errs") {
+                            obs.errors = n[0].atom()?.parse().ok()?;
+                        } else if let Some(ps) = part.tagged("ext") {
+                            for p in ps {
+                                obs.ext.insert(cx.unpath(p)?);
+                            }
+                        }
+                    }
+                    steps.push(Step::Obs(obs));
+                }
+            }
+        } else if let Some(r) = it.tagged("h10") {
+            let name = r[0].atom()?;
+            region = if name == "ok" { None } else { Some(name.to_owned()) };
+            region_at = r.get(1).and_then(|x| x.atom()).and_then(|x| x.parse().ok());
+        } else if let Some(r) = it.tagged("hits") {
+            hits = r.iter().filter_map(|x| x.atom().map(str::to_owned)).collect();
+        } else if let Some(r) = it.tagged("fresh") {
+            fresh_same = match r[0].atom()? {
+                "same" => Some(true),
+                "differs" => Some(false),
+                _ => None,
+            };
+        }
+    }
+    Some(ModelRun { steps, region, region_at, hits, fresh_same, raw: answer.to_owned() })
+}
+
+fn run_model(model: &mut Model, h: &[Op]) -> Result<ModelRun, String> {
+    let (req, cx) = model_request(h);
+    let answer = model.ask(&req);
+    decode_model(&answer, &cx).ok_or_else(|| format!("unreadable model answer: {}", &answer[..answer.len().min(200)]))
+}
+
+// ---------------------------------------------------------------------------------------
+// judging one history
+
+#[derive(Clone, Debug)]
+struct Verdict {
+    /// the real run breaks the property (vs the real fresh run / panic): description
+    oracle: Option<String>,
+    /// model and real differ: description
+    correspondence: Option<String>,
+    region: Option<String>,
+    processed: usize,
+    /// correspondence not judged (slot-allocation dependent tail of an F10 history)
+    skipped: bool,
+}
+
+fn first_diff(a: &Tree, b: &Tree) -> String {
+    let keys: BTreeSet<&String> = a.keys().chain(b.keys()).collect();
+    for k in keys {
+        if a.get(k) != b.get(k) {
+            return format!("{}: {:?} vs {:?}", k, a.get(k), b.get(k));
+        }
+    }
+    "equal".to_owned()
+}
+
+/// ORACLE only (no model): first step at which the real worker differs from a real fresh run
+fn judge_oracle(h: &[Op]) -> Option<String> {
+    let r = run_real(h);
+    judge_oracle_on(h, &r.0, &r.3)
+}
+
+fn judge_oracle_on(h: &[Op], steps: &[Step], inputs: &BTreeMap<String, String>) -> Option<String> {
+    let mut state = initial_state();
+    let mut cfg = 0;
+    let mut it = steps.iter();
+    let mut n = 0;
+    for &op in h {
+        apply_to_state(&mut state, op);
+        if let Op::Cfg(k) = op {
+            cfg = k;
+        }
+        if op == Op::Process {
+            n += 1;
+            match it.next() {
+                Some(Step::Obs(obs)) => match &*fresh(cfg, &state) {
+                    Ok(t) => {
+                        if *t != obs.tree {
+                            return Some(format!(
+                                "after process #{} the output tree differs from a fresh run: {}",
+                                n,
+                                first_diff(&obs.tree, t)
+                            ));
+                        }
+                    }
+                    Err(e) => return Some(format!("the fresh run panics: {}", e)),
+                },
+                Some(Step::Panic(msg)) => return Some(format!("panic: {}", msg)),
+                None => break,
+            }
+        }
+    }
+    if let Some(Step::Panic(msg)) = it.next() {
+        return Some(format!("panic: {}", msg));
+    }
+    if let Some(Step::Panic(msg)) = steps.last() {
+        return Some(format!("panic: {}", msg));
+    }
+    // the worker must never touch its inputs
+    let mut expected = Tree::new();
+    for (f, v) in state.iter().enumerate() {
+        if let Some(v) = v {
+            expected.insert(FILES[f].0.to_owned(), FILES[f].1[*v].to_owned());
+        }
+    }
+    if !inputs.is_empty() && *inputs != expected {
+        return Some(format!("input files were modified: {}", first_diff(inputs, &expected)));
+    }
+    None
+}
+
+fn judge(model: &mut Model, h: &[Op]) -> Verdict {
+    let (real_steps, _, _, inputs) = run_real(h);
+    let oracle = judge_oracle_on(h, &real_steps, &inputs);
+    let processed = real_steps.len();
+    match run_model(model, h) {
+        Err(e) => Verdict { oracle, correspondence: Some(e), region: None, processed, skipped: false },
+        Ok(m) => {
+            let mut corr = None;
+            if m.region.is_none() && m.fresh_same == Some(false) {
+                corr = Some("the model itself leaves H10-history outputs different from its fresh spec (theorem contradicted)".to_owned());
+            }
+            // after a dangling index exists (F10) the behaviour depends on which slot petgraph
+            // reuses, i.e. on HashMap iteration order: not a function of the history
+            // (a freed slot can only be reused by `insert_source`, i.e. when the history creates files)
+            let alloc_dependent =
+                m.hits.iter().any(|r| r.starts_with("F10@")) && h.iter().any(|o| matches!(o, Op::Add(..)));
+            if alloc_dependent {
+                return Verdict { oracle, correspondence: corr, region: m.region, processed, skipped: true };
+            }
+            if corr.is_some() {
+            } else if m.steps.len() != real_steps.len() {
+                corr = Some(format!("model reports {} steps, real {}", m.steps.len(), real_steps.len()));
+            } else {
+                for (i, (a, b)) in m.steps.iter().zip(real_steps.iter()).enumerate() {
+                    match (a, b) {
+                        (Step::Panic(_), Step::Panic(_)) => {}
+                        (Step::Obs(a), Step::Obs(b)) => {
+                            if a != b {
+                                corr = Some(if a.tree != b.tree {
+                                    format!("process #{}: tree (model vs real) {}", i + 1, first_diff(&a.tree, &b.tree))
+                                } else {
+                                    format!(
+                                        "process #{}: model (succ {}, errs {}, ext {:?}) real (succ {}, errs {}, ext {:?})",
+                                        i + 1, a.success, a.errors, a.ext, b.success, b.errors, b.ext
+                                    )
+                                });
+                                break;
+                            }
+                        }
+                        (Step::Panic(_), _) => {
+                            corr = Some(format!("process #{}: the model panics, the real worker does not", i + 1));
+                            break;
+                        }
+                        (_, Step::Panic(msg)) => {
+                            corr = Some(format!("process #{}: the real worker panics ({}), the model does not", i + 1, msg));
+                            break;
+                        }
+                    }
+                }
+            }
+            Verdict { oracle, correspondence: corr, region: m.region, processed, skipped: false }
+        }
+    }
+}
+
+// ---------------------------------------------------------------------------------------
+// shrinking (delta debugging on the op list)
+
+fn shrink(h: &[Op], fails: &mut dyn FnMut(&[Op]) -> bool) -> Vec<Op> {
+    let mut cur = canonical(h);
+    let mut chunk = cur.len() / 2;
+    while chunk >= 1 {
+        let mut i = 0;
+        let mut progressed = false;
+        while i < cur.len() {
+            let mut cand: Vec<Op> = cur[..i].to_vec();
+            cand.extend_from_slice(&cur[(i + chunk).min(cur.len())..]);
+            let cand = canonical(&cand);
+            if cand.len() < cur.len() && fails(&cand) {
+                cur = cand;
+                progressed = true;
+            } else {
+                i += chunk;
+            }
+        }
+        if !progressed {
+            chunk /= 2;
+        }
+    }
+    cur
+}
+
+// ---------------------------------------------------------------------------------------
+// generation
+
+fn alphabet() -> Vec<Op> {
+    let mut a = Vec::new();
+    a.push(Op::Process);
+    a.push(Op::Edit(F_A, 1));
+    a.push(Op::Edit(F_A, 2));
+    a.push(Op::Edit(F_C, 1));
+    a.push(Op::Edit(F_ENTRY, 1));
+    a.push(Op::Edit(F_M1, 1));
+    a.push(Op::Edit(F_DATA, 1));
+    a.push(Op::Edit(F_M2, 1));
+    a.push(Op::Add(F_NEW, 0));
+    a.push(Op::Add(F_NEW, 1));
+    a.push(Op::Add(F_LATE, 0));
+    a.push(Op::Edit(F_B, 1));
+    a.push(Op::Add(F_A, 1));
+    a.push(Op::Add(F_ENTRY, 0));
+    a.push(Op::Add(F_M1, 0));
+    a.push(Op::Add(F_DATA, 1));
+    a.push(Op::Add(F_M2, 1));
+    a.push(Op::Rm(F_A));
+    a.push(Op::Rm(F_ENTRY));
+    a.push(Op::Rm(F_M1));
+    a.push(Op::Rm(F_DATA));
+    a.push(Op::Rm(F_M2));
+    a.push(Op::RmDir(0));
+    a.push(Op::RmDir(1));
+    a.push(Op::Cfg(1));
+    a.push(Op::Cfg(2));
+    a.push(Op::Cfg(3));
+    a.push(Op::Cfg(0));
+    a.push(Op::Collect);
+    a
+}
+
+fn random_op(rng: &mut Rng, state: &FsState) -> Op {
+    loop {
+        let op = match rng.below(16) {
+            0..=3 => Op::Process,
+            4..=6 => {
+                let f = rng.below(FILES.len());
+                Op::Edit(f, rng.below(FILES[f].1.len()))
+            }
+            7..=8 => {
+                let f = rng.below(FILES.len());
+                Op::Add(f, rng.below(FILES[f].1.len()))
+            }
+            9..=10 => Op::Rm(rng.below(FILES.len())),
+            11 => Op::RmDir(rng.below(DIRS.len())),
+            12..=13 => Op::Cfg(rng.below(CONFIGS.len())),
+            14 => Op::Collect,
+            _ => Op::Add(rng.below(FILES.len()), 0),
+        };
+        if op_valid(state, op) {
+            return op;
+        }
+    }
+}
+
+fn random_history(rng: &mut Rng, len: usize) -> Vec<Op> {
+    let mut state = initial_state();
+    let mut h = Vec::new();
+    for _ in 0..len {
+        let op = random_op(rng, &state);
+        apply_to_state(&mut state, op);
+        h.push(op);
+    }
+    canonical(&h)
+}
+
+/// all canonical histories of exactly `len` operations drawn from `alphabet` (+ the closing process)
+fn enumerate(len: usize, alphabet: &[Op], out: &mut Vec<Vec<Op>>) {
+    fn go(len: usize, alphabet: &[Op], state: &FsState, cur: &mut Vec<Op>, out: &mut Vec<Vec<Op>>) {
+        if cur.len() == len {
+            if cur.last() == Some(&Op::Process) {
+                // the closing process is implicit: histories ending in `process` are those of length len-1
+                return;
+            }
+            let mut h = cur.clone();
+            h.push(Op::Process);
+            out.push(h);
+            return;
+        }
+        for &op in alphabet {
+            if !op_valid(state, op) {
+                continue;
+            }
+            // two processes in a row, or cfg directly after cfg, add nothing
+            if op == Op::Process && cur.last() == Some(&Op::Process) {
+                continue;
+            }
+            if let (Op::Cfg(_), Some(Op::Cfg(_))) = (op, cur.last()) {
+                continue;
+            }
+            let mut st = state.clone();
+            apply_to_state(&mut st, op);
+            cur.push(op);
+            go(len, alphabet, &st, cur, out);
+            cur.pop();
+        }
+    }
+    go(len, alphabet, &initial_state(), &mut Vec::new(), out);
+}
+
+// ---------------------------------------------------------------------------------------
+// the on-hold path of the work loop (user-defined rule overriding `Rule::require_content`)
+
+#[derive(Debug, Default)]
+struct NeedsContent {
+    metadata: darklua_core::rules::RuleMetadata,
+    required: std::path::PathBuf,
+    only_for: std::path::PathBuf,
+}
+
+impl darklua_core::rules::RuleConfiguration for NeedsContent {
+    fn configure(
+        &mut self,
+        _properties: darklua_core::rules::RuleProperties,
+    ) -> Result<(), darklua_core::rules::RuleConfigurationError> {
+        Ok(())
+    }
+    fn get_name(&self) -> &'static str {
+        "verif_needs_content"
+    }
+    fn serialize_to_properties(&self) -> darklua_core::rules::RuleProperties {
+        Default::default()
+    }
+    fn set_metadata(&mut self, metadata: darklua_core::rules::RuleMetadata) {
+        self.metadata = metadata;
+    }
+    fn metadata(&self) -> &darklua_core::rules::RuleMetadata {
+        &self.metadata
+    }
+}
+
+impl darklua_core::rules::Rule for NeedsContent {
+    fn process(
+        &self,
+        _block: &mut darklua_core::nodes::Block,
+        _context: &darklua_core::rules::Context,
+    ) -> darklua_core::rules::RuleProcessResult {
+        Ok(())
+    }
+    fn require_content(
+        &self,
+        current_source: &std::path::Path,
+        _current_block: &darklua_core::nodes::Block,
+    ) -> Vec<std::path::PathBuf> {
+        if current_source == self.only_for {
+            vec![self.required.clone()]
+        } else {
+            Vec::new()
+        }
+    }
+}
+
+/// Does a plain fresh run terminate within `secs` when src/a.lua is put on hold for `required`?
+/// (Runs on a detached thread: a hanging run keeps spinning until the harness exits.)
+fn on_hold_run_terminates(required: &'static str, secs: u64) -> Option<bool> {
+    let (tx, rx) = mpsc::channel::<bool>();
+    std::thread::spawn(move || {
+        let r = catch_unwind(|| {
+            let res = Resources::from_memory();
+            res.write("src/a.lua", "return 1\n").unwrap();
+            res.write("src/b.lua", "return 2\n").unwrap();
+            let rule: Box<dyn darklua_core::rules::Rule> = Box::new(NeedsContent {
+                metadata: Default::default(),
+                required: required.into(),
+                only_for: "src/a.lua".into(),
+            });
+            let cfg = Configuration::empty().with_rule(rule);
+            let _ = darklua_core::process(&res, Options::new(INPUT).with_output(OUTPUT).with_configuration(cfg));
+        });
+        let _ = tx.send(r.is_ok());
+    });
+    match rx.recv_timeout(Duration::from_secs(secs)) {
+        Ok(ok) => Some(ok),
+        Err(_) => None,
+    }
+}
+
+// ---------------------------------------------------------------------------------------
+// driver
+
+struct Finding {
+    id: String,
+    witness: Vec<Op>,
+    region: String,
+}
+
+fn load_findings() -> Vec<Finding> {
+    known_findings("C10")
+        .iter()
+        .filter(|e| e["status"] == "known")
+        .filter_map(|e| {
+            Some(Finding {
+                id: e["id"].as_str()?.to_owned(),
+                witness: history_from_json(&e["witness"]["history"])?,
+                region: e["hypothesis_region"].as_str().unwrap_or("").to_owned(),
+            })
+        })
+        .collect()
+}
+
+struct Shared {
+    next: AtomicU64,
+    stop: AtomicBool,
+    current: Vec<Mutex<Option<(Instant, Vec<Op>)>>>,
+}
+
+enum Msg {
+    Done(Vec<Op>, Verdict),
+    Finished,
+}
+
+/// keep a random history inside H10: drop the operation that enters an excluded region, retry
+fn repair(model: &mut Model, h: Vec<Op>) -> Vec<Op> {
+    let mut cur = h;
+    for _ in 0..40 {
+        match run_model(model, &cur) {
+            Ok(m) => match m.region_at {
+                Some(k) if k < cur.len() => {
+                    let mut next = cur.clone();
+                    next.remove(k);
+                    cur = canonical(&next);
+                }
+                _ => return cur,
+            },
+            Err(_) => return cur,
+        }
+    }
+    cur
+}
+
+fn run_parallel(histories: Arc<Vec<(Vec<Op>, bool)>>, threads: usize, mut on: impl FnMut(Vec<Op>, Verdict)) -> Option<Vec<Op>> {
+    let shared = Arc::new(Shared {
+        next: AtomicU64::new(0),
+        stop: AtomicBool::new(false),
+        current: (0..threads).map(|_| Mutex::new(None)).collect(),
+    });
+    let (tx, rx) = mpsc::channel::<Msg>();
+    for t in 0..threads {
+        let shared = shared.clone();
+        let histories = histories.clone();
+        let tx = tx.clone();
+        std::thread::spawn(move || {
+            let mut model = Model::spawn();
+            loop {
+                if shared.stop.load(Ordering::Relaxed) {
+                    break;
+                }
+                let i = shared.next.fetch_add(1, Ordering::Relaxed) as usize;
+                if i >= histories.len() {
+                    break;
+                }
+                let (h, guided) = histories[i].clone();
+                let h = if guided { repair(&mut model, h) } else { h };
+                *shared.current[t].lock().unwrap() = Some((Instant::now(), h.clone()));
+                let v = judge(&mut model, &h);
+                *shared.current[t].lock().unwrap() = None;
+                if tx.send(Msg::Done(h, v)).is_err() {
+                    break;
+                }
+            }
+            let _ = tx.send(Msg::Finished);
+        });
+    }
+    drop(tx);
+    let mut finished = 0;
+    while finished < threads {
+        match rx.recv_timeout(Duration::from_secs(5)) {
+            Ok(Msg::Done(h, v)) => on(h, v),
+            Ok(Msg::Finished) => finished += 1,
+            Err(mpsc::RecvTimeoutError::Timeout) => {
+                // watchdog: a history running for more than 60 s is a hang
+                for slot in shared.current.iter() {
+                    if let Some((since, h)) = slot.lock().unwrap().clone() {
+                        if since.elapsed() > Duration::from_secs(60) {
+                            shared.stop.store(true, Ordering::Relaxed);
+                            return Some(h);
+                        }
+                    }
+                }
+            }
+            Err(mpsc::RecvTimeoutError::Disconnected) => break,
+        }
+    }
+    None
+}
+
+pub fn run(report: &mut Report, replay: Option<&str>) {
+    report.rule = "histories over a fixed project (4 plain sources incl. a nested directory and a late-added file, a bundle entry requiring a source module, a module outside the input folder and a JSON data file, two foreign files in the output folder, 4 configurations differing in generator / rule filter / rule list); operations edit/add/rm/rmdir/cfg/collect/process as file_watcher.rs issues them; a case is non-trivial when the history contains at least one edit/add/remove/configuration operation (distinct histories counted)".to_owned();
+
+    if let Some(path) = replay {
+        replay_file(report, path);
+        return;
+    }
+    if std::env::var("C10_EXPLORE").is_ok() {
+        explore(report);
+        return;
+    }
+    main_run(report);
+}
+
+fn replay_file(report: &mut Report, path: &str) {
+    let text = std::fs::read_to_string(path).unwrap_or_default();
+    let v: Value = serde_json::from_str(&text).unwrap_or(Value::Null);
+    let h = history_from_json(&v["input"]["history"])
+        .or_else(|| history_from_json(&v["witness"]["history"]))
+        .or_else(|| history_from_json(&v["history"]));
+    let Some(h) = h else {
+        report.notes.push(format!("replay: no history in {}", path));
+        return;
+    };
+    let mut model = Model::spawn();
+    let verdict = judge(&mut model, &h);
+    report.case(Some(&h));
+    report.notes.push(format!("replay verdict: {:?}", verdict));
+    let (steps, ..) = run_real(&h);
+    report.notes.push(format!("real steps: {:?}", steps));
+    if let Ok(m) = run_model(&mut model, &h) {
+        report.notes.push(format!("model: {}", m.raw));
+    }
+    if let Some(what) = verdict.oracle.clone() {
+        report.violation(Violation {
+            kind: "oracle".into(),
+            check: "replay".into(),
+            what,
+            input: json!({"history": history_json(&h)}),
+            failing_input_found: true,
+        });
+    } else if let Some(what) = verdict.correspondence {
+        report.violation(Violation {
+            kind: "correspondence".into(),
+            check: "replay".into(),
+            what,
+            input: json!({"history": history_json(&h)}),
+            failing_input_found: false,
+        });
+    }
+}
+
+/// development aid: oracle-only sweep that lists minimal failing histories by failure text
+fn explore(report: &mut Report) {
+    let alpha = alphabet();
+    let mut all = Vec::new();
+    for len in 1..=3 {
+        enumerate(len, &alpha, &mut all);
+    }
+    let mut seen: BTreeMap<String, Vec<Op>> = BTreeMap::new();
+    for h in all.iter() {
+        if let Some(what) = judge_oracle(h) {
+            let key: String = what.chars().take(400).collect();
+            let e = seen.entry(key).or_insert_with(|| h.clone());
+            if h.len() < e.len() {
+                *e = h.clone();
+            }
+        }
+    }
+    for (k, h) in seen {
+        report.notes.push(format!("{} <= {}", k, history_json(&h)));
+    }
+    report.notes.push(format!("explored {}", all.len()));
+}
+
+fn main_run(report: &mut Report) {
+    
+    let threads = std::thread::available_parallelism().map(|n| n.get()).unwrap_or(4).min(16);
+    let findings = load_findings();
+    let mut rng = Rng::new(report.seed);
+
+    // ---- known findings: replay each witness on the real code
+    let mut model = Model::spawn();
+    for f in &findings {
+        let h = canonical(&f.witness);
+        let v = judge(&mut model, &h);
+        report.case(Some(&h));
+        match (&v.oracle, &v.region) {
+            (Some(what), Some(region)) if *region == f.region => {
+                let short: String = what.chars().take(160).collect();
+                report.known_finding(&f.id, &format!("{} (history {})", short.replace('\n', " "), history_json(&h)));
+                if let Some(c) = v.correspondence {
+                    report.violation(Violation {
+                        kind: "correspondence".into(),
+                        check: "known-finding-witness".into(),
+                        what: format!("{}: {}", f.id, c),
+                        input: json!({"history": history_json(&h)}),
+                        failing_input_found: true,
+                    });
+                }
+            }
+            (Some(what), region) => report.violation(Violation {
+                kind: "finding-changed".into(),
+                check: "known-finding-witness".into(),
+                what: format!("{} fails ({}) but the model places it in region {:?}, recorded {}", f.id, what, region, f.region),
+                input: json!({"history": history_json(&h)}),
+                failing_input_found: true,
+            }),
+            (None, _) => report.notes.push(format!("{}: the recorded witness no longer fails", f.id)),
+        }
+    }
+
+    // ---- corpus
+    let corpus_dir = concat!(env!("CARGO_MANIFEST_DIR"), "/../corpus/C10");
+    let mut histories: Vec<(Vec<Op>, bool)> = Vec::new();
+    if let Ok(rd) = std::fs::read_dir(corpus_dir) {
+        let mut paths: Vec<_> = rd.filter_map(|e| e.ok()).map(|e| e.path()).collect();
+        paths.sort();
+        for p in paths {
+            if let Ok(text) = std::fs::read_to_string(&p) {
+                if let Ok(v) = serde_json::from_str::<Value>(&text) {
+                    if let Some(h) = history_from_json(&v["history"]) {
+                        histories.push((canonical(&h), false));
+                        report.count("corpus", 1);
+                    }
+                }
+            }
+        }
+    }
+
+    // ---- exhaustive part
+    let alpha = alphabet();
+    let mut exhaustive = Vec::new();
+    let max_len = if report.is_thorough() { 4 } else { 3 };
+    for len in 1..=max_len {
+        enumerate(len, &alpha, &mut exhaustive);
+    }
+    let exhaustive_total = exhaustive.len();
+    if !report.is_thorough() {
+        // quick: all of length <= 2, a seeded slice of length 3
+        let mut short: Vec<Vec<Op>> = exhaustive.iter().filter(|h| h.len() <= 3).cloned().collect();
+        let mut long: Vec<Vec<Op>> = exhaustive.into_iter().filter(|h| h.len() > 3).collect();
+        rng.shuffle(&mut long);
+        long.truncate(3000);
+        short.extend(long);
+        exhaustive = short;
+        report.exhaustive.insert("histories of length <= 2 over the 29-op alphabet".into(), true);
+    } else {
+        report.exhaustive.insert("histories of length <= 4 over the 29-op alphabet".into(), true);
+        // plus a seeded slice of length 5
+        let mut five = Vec::new();
+        let n5 = 60_000;
+        for _ in 0..n5 {
+            let mut state = initial_state();
+            let mut h = Vec::new();
+            while h.len() < 5 {
+                let op = *rng.pick(&alpha);
+                if op_valid(&state, op) {
+                    apply_to_state(&mut state, op);
+                    h.push(op);
+                }
+            }
+            five.push(canonical(&h));
+        }
+        exhaustive.extend(five);
+    }
+    report.count("enumerated_total", exhaustive_total as u64);
+    histories.extend(exhaustive.into_iter().map(|h| (h, false)));
+
+    // ---- random histories up to length 30
+    let n_random = if report.is_thorough() { 30_000 } else { 2_500 };
+    for _ in 0..n_random {
+        let len = 5 + rng.below(26);
+        // two thirds are steered to stay inside H10 (otherwise long histories nearly always
+        // run into one of the defect regions early and the rest of them is not judged)
+        let guided = rng.below(3) != 0;
+        histories.push((random_history(&mut rng, len), guided));
+    }
+
+    // ---- run
+    let histories = Arc::new(histories);
+    let mut oracle_fail: BTreeMap<String, Vec<Vec<Op>>> = BTreeMap::new(); // region -> histories
+    let mut unexplained: Vec<(Vec<Op>, String)> = Vec::new();
+    let mut corr_fail: Vec<(Vec<Op>, String, Option<String>)> = Vec::new();
+    let mut n_oracle_checked = 0u64;
+    let mut n_in_h = 0u64;
+    let hang = {
+        let report_cell = std::cell::RefCell::new(&mut *report);
+        run_parallel(histories.clone(), threads, |h, v| {
+            let mut report = report_cell.borrow_mut();
+            let nontrivial = h.iter().any(|o| *o != Op::Process && *o != Op::Collect);
+            report.case(if nontrivial { Some(&h) } else { None });
+            report.hist("length", &format!("{:02}", (h.len() + 4) / 5 * 5));
+            for op in h.iter() {
+                report.hist("op", op.kind());
+            }
+            report.hist("region", v.region.as_deref().unwrap_or("H10"));
+            n_oracle_checked += v.processed as u64;
+            if v.region.is_none() {
+                n_in_h += 1;
+                report.hist("length_inside_H10", &format!("{:02}", (h.len() + 4) / 5 * 5));
+            }
+            if v.skipped {
+                report.count("correspondence_skipped_slot_allocation_dependent", 1);
+            }
+            if report.samples.len() < 6 && h.len() >= 4 {
+                report.sample(json!({"history": history_json(&h), "region": v.region, "oracle": v.oracle}));
+            }
+            match (&v.oracle, &v.region) {
+                (Some(what), Some(region)) => {
+                    report.hist("oracle_failures_in_region", region);
+                    let e = oracle_fail.entry(region.clone()).or_default();
+                    if e.len() < 3 {
+                        e.push(h.clone());
+                    }
+                    let _ = what;
+                }
+                (Some(what), None) => unexplained.push((h.clone(), what.clone())),
+                _ => {}
+            }
+            if let Some(c) = &v.correspondence {
+                corr_fail.push((h.clone(), c.clone(), v.region.clone()));
+            }
+        })
+    };
+    report.count("process_steps_compared_with_fresh_run", n_oracle_checked);
+    report.count("histories_inside_H10", n_in_h);
+    report.count("model_requests", histories.len() as u64);
+
+    if let Some(h) = hang {
+        report.violation(Violation {
+            kind: "oracle".into(),
+            check: "no-hang".into(),
+            what: "a history did not finish within 60 s".into(),
+            input: json!({"history": history_json(&h)}),
+            failing_input_found: true,
+        });
+        return;
+    }
+
+    // ---- the assumption `DepSound` of the theorem, tested on the real T: editing or deleting an
+    // existing file other than the source and its reported dependencies does not change T
+    {
+        let mut entries: Vec<((usize, FsState, usize), Arc<TRes>)> =
+            t_cache().lock().unwrap().iter().map(|(k, v)| (k.clone(), v.clone())).collect();
+        entries.sort_by(|a, b| a.0.cmp(&b.0));
+        rng.shuffle(&mut entries);
+        entries.truncate(if report.is_thorough() { 4000 } else { 400 });
+        let mut checked = 0u64;
+        for ((cfg, state, f), res) in entries {
+            for g in 0..FILES.len() {
+                if g == f || state[g].is_none() || res.deps.iter().any(|d| d == FILES[g].0) {
+                    continue;
+                }
+                let mut variants: Vec<Option<usize>> = vec![None];
+                variants.extend((0..FILES[g].1.len()).map(Some));
+                for v in variants {
+                    if v == state[g] {
+                        continue;
+                    }
+                    let mut st2 = state.clone();
+                    st2[g] = v;
+                    let res2 = measure_t(cfg, &st2, f);
+                    checked += 1;
+                    if *res2 != *res {
+                        report.violation(Violation {
+                            kind: "correspondence".into(),
+                            check: "assumption-DepSound".into(),
+                            what: format!(
+                                "T of {} under configuration {} changes when the unrelated existing file {} is {} (reported deps {:?})",
+                                FILES[f].0, cfg, FILES[g].0, if v.is_none() { "deleted" } else { "edited" }, res.deps
+                            ),
+                            input: json!({"cfg": cfg, "state": format!("{:?}", state), "file": FILES[f].0, "changed": FILES[g].0}),
+                            failing_input_found: false,
+                        });
+                    }
+                }
+            }
+        }
+        report.count("depsound_assumption_checks", checked);
+    }
+
+    // ---- verdicts
+    // (1) the real code breaks the property inside the proved region H10
+    unexplained.sort_by_key(|(h, _)| h.len());
+    for (h, what) in unexplained.iter().take(3) {
+        let small = shrink(h, &mut |c| judge_oracle(c).is_some() && run_model(&mut model, c).map(|m| m.region.is_none()).unwrap_or(true));
+        let what = judge_oracle(&small).unwrap_or(what.clone());
+        report.violation(Violation {
+            kind: "oracle".into(),
+            check: "incremental-equals-fresh".into(),
+            what,
+            input: json!({"history": history_json(&small), "found_as": history_json(h)}),
+            failing_input_found: true,
+        });
+    }
+    // (2) model and real code differ
+    corr_fail.sort_by_key(|(h, _, _)| h.len());
+    for (h, what, region) in corr_fail.iter().take(3) {
+        let small = shrink(h, &mut |c| judge(&mut model, c).correspondence.is_some());
+        let v = judge(&mut model, &small);
+        // is there a real failure nearby (inside H10)?
+        let failing = v.oracle.is_some() && v.region.is_none();
+        report.violation(Violation {
+            kind: if failing { "oracle".into() } else { "correspondence".into() },
+            check: "model-vs-worker".into(),
+            what: format!("{} (region {:?}); shrunk: {:?}", what, region, v.correspondence),
+            input: json!({"history": history_json(&small), "found_as": history_json(h)}),
+            failing_input_found: failing,
+        });
+    }
+    // (4) the on-hold path (last, because a hanging run keeps a core busy until exit)
+    {
+        let listed = known_findings("C10").iter().any(|e| e["id"] == "F26" && e["status"] == "known");
+        // control: requiring the file itself is filtered out by apply_rules -> must terminate
+        if on_hold_run_terminates("src/a.lua", 20) != Some(true) {
+            report.notes.push("on-hold control run (self requirement) did not terminate cleanly".to_owned());
+        }
+        // requiring another work item: terminates only if that item happens to be visited first
+        let other = on_hold_run_terminates("src/b.lua", 5);
+        report.notes.push(format!("on-hold run requiring another work item: {}", match other {
+            Some(true) => "terminates",
+            Some(false) => "panics",
+            None => "does not terminate",
+        }));
+        match on_hold_run_terminates("lib/not-a-work-item.lua", if report.is_thorough() { 20 } else { 8 }) {
+            None if listed => report.known_finding(
+                "F26",
+                "a fresh run with a user-defined rule whose require_content names a path that is not a work item did not terminate (work loop: done_count is reset every pass but compared with the initial total_not_done)",
+            ),
+            None => report.violation(Violation {
+                kind: "oracle".into(),
+                check: "no-loop-on-hold".into(),
+                what: "WorkerTree::process does not terminate when a rule puts an item on hold (Rule::require_content)".into(),
+                input: json!({"rule": "require_content(src/a.lua) = [lib/not-a-work-item.lua]", "files": ["src/a.lua", "src/b.lua"]}),
+                failing_input_found: true,
+            }),
+            Some(_) => {
+                if listed {
+                    report.notes.push("F26: the on-hold run terminates now".to_owned());
+                }
+            }
+        }
+        // the model's counter logic agrees: 2 pending, pass 1 finishes 1 -> never exits; finishes 2 -> exits
+        let a = model.ask("c10.genloop 2 2 1 1 0 0 0 0");
+        let b = model.ask("c10.genloop 2 2 2");
+        if a != "false" || b != "true" {
+            report.violation(Violation {
+                kind: "correspondence".into(),
+                check: "genloop".into(),
+                what: format!("model counter logic answers {} / {} (expected false / true)", a, b),
+                input: json!({"requests": ["c10.genloop 2 2 1 1 0 0 0 0", "c10.genloop 2 2 2"]}),
+                failing_input_found: false,
+            });
+        }
+        report.count("on_hold_runs", 3);
+    }
+    // (3) failures inside an excluded region must be covered by a listed finding of that region
+    for (region, hs) in oracle_fail.iter() {
+        if !findings.iter().any(|f| f.region == *region) {
+            let h = &hs[0];
+            let small = shrink(h, &mut |c| {
+                judge_oracle(c).is_some() && run_model(&mut model, c).map(|m| m.region.as_deref() == Some(region.as_str())).unwrap_or(false)
+            });
+            report.violation(Violation {
+                kind: "oracle".into(),
+                check: "unlisted-defect-region".into(),
+                what: format!("failure in region {} which has no entry in known_findings.json: {}", region, judge_oracle(&small).unwrap_or_default()),
+                input: json!({"history": history_json(&small)}),
+                failing_input_found: true,
+            });
+        }
+    }
 }
